@@ -77,6 +77,13 @@ impl Fq2 {
         }
         let b = self.c1;
         let a = self.c0;
+        if b.is_zero() {
+            // a lies in Fq: either a = z0^2, or a = -2 * z1^2 = (z1 * i)^2
+            return match a.sqrt() {
+                Some(z0) => Some(Self::new(z0, Fq::zero())),
+                None => (-a).div2().sqrt().map(|z1| Self::new(Fq::zero(), z1)),
+            };
+        }
         let bb = b.squared();
         let aa = a.squared();
         let u = aa + bb.double();
